@@ -12,7 +12,7 @@ import (
 
 func ZZ_C17_BtcKeyShapes() {
 	contract := utils.CrossChainManagerContractAddress
-	lens := []int{0, 1, 2, 8, 9, 32}
+	lens := zz17Lens(32)
 	var real, shape []byte
 	switch zzsym.Choose("kind", 4) {
 	case 0, 1:
